@@ -1,5 +1,5 @@
 from .. import facts
-from ..rules import traps, algebra
+from ..rules import traps, algebra, status, deadcmp
 
 
 def run(ck):
@@ -14,3 +14,5 @@ def run(ck):
     traps.r8_fill_count_restart(ck, P)
     traps.r9_edge_step_conservation(ck, P)
     traps.r10_row_weight_constant(ck, P)
+    status.r19_13_shortcut_needs_plain_destination(ck, P, 'C12-R12')   # both routes of pixman_composite_trapezoids give the same picture
+    deadcmp.r_equality_with_unreachable_value(ck, P, 'C12-R11', floor=300)
